@@ -935,6 +935,66 @@ def gen_pill_paused_restart(seed, mode="loop"):
     return sc
 
 
+def gen_restart_while_leaving(seed, mode="loop"):
+    """C01: from the stop callback that its own deregistration runs, a module starts itself again - alone, or after the name
+    it just gave up has been registered again by another module: ZOMBIE is final, the call is refused and changes nothing"""
+    r = random.Random(seed * 131 + 101)
+    sc = Sc(mode, "restart attempted while being deregistered seed=%d" % seed)
+    driven_skeleton(sc)
+    nm = r.choice(["phoenix", "px", "ash"])
+    A, B = 1, 2
+    sc.mod(A, nm, r.choice([0, MOD_NAME_DUP]), r.choice([4, 6, 7]))
+    sc.mod(B, nm, r.choice([0, MOD_NAME_DUP]), r.choice([0, 2]))
+    for k in ("eval", "start"):
+        sc.cb(A, k, "*", [], ret=1)
+        sc.cb(B, k, "*", [], ret=1)
+    retake = r.random() < 0.7
+    sc.cb(A, "stop", "*", ([("reg", B)] if retake else []) + [("start", -1), ("resume", -1)])
+    sc.cb(A, "evt", "*", [])
+    sc.cb(B, "evt", "*", [])
+    sc.main += [("reg", A), ("start", A)]
+    where = r.choice(["step", "main", "pill"])
+    if where == "main":
+        sc.main.append(("dereg", A))
+        steps = [[], []]
+    elif where == "pill":
+        steps = [[("pill", DRV, A)], [], [("dereg", A)], []]
+    else:
+        steps = [[], [("dereg", A)], [], []]
+    driven_finish(sc, steps, rng=r)
+    finalize_main(sc)
+    return sc
+
+
+def gen_paused_with_batch_at_quit(seed, mode="loop"):
+    """C01: events are being accumulated for a module (batch size not reached, or low-priority only) when it is paused, and the
+    loop quits while it is still PAUSED: no handler runs for a module that is not RUNNING - not in the final flush either"""
+    r = random.Random(seed * 137 + 103)
+    sc = Sc(mode, "paused with accumulated events when the loop stops seed=%d" % seed)
+    driven_skeleton(sc)
+    T, S2 = 1, 2
+    sc.mod(T, "acc", 0, r.choice([0, 4]))
+    sc.mod(S2, "sender", 0, 0)
+    sc.cb(T, "stop", "*", [])
+    sc.cb(T, "evt", "*", [])
+    sc.cb(S2, "evt", "*", [])
+    tl = sc.topic("alpha")
+    sc.main += [("reg", T), ("reg", S2), ("start", T), ("start", S2), ("sub", T, tl, SRC_LOW, sc.ud())]
+    how = r.choice(["size", "low", "timeout"])
+    if how == "size":
+        sc.main.append(("bsize", T, r.choice([3, 5, 64])))
+        burst = [("tell", S2, T, sc.pay(), 0) for _ in range(r.randrange(1, 3))]
+    elif how == "timeout":
+        sc.main.append(("btimeout", T, 50000000))
+        burst = [("tell", S2, T, sc.pay(), 0) for _ in range(r.randrange(1, 3))]
+    else:
+        burst = [("publish", S2, tl, sc.pay(), 0) for _ in range(r.randrange(1, 3))]
+    steps = [[], burst, [], [("pause", T)], []]
+    driven_finish(sc, steps, rng=r)
+    finalize_main(sc)
+    return sc
+
+
 def gen_tick_in_flush(seed, mode="loop"):
     """C20: m_ctx_set_tick() called by a handler that the final flush of a loop run invokes (loop-stopped notification) while a
     tick is active"""
@@ -946,7 +1006,11 @@ def gen_tick_in_flush(seed, mode="loop"):
     sc.main += [("reg", 1), ("start", 1), ("sub", 1, t_stop, 0, sc.ud()), ("ctx_tick", r.choice([1000000, 2000000]))]
     sc.cb(1, "evt", "*", [("ctx_tick", r.choice([0, 3000000, 1000000]))])
     steps = [[] for _ in range(r.randrange(2, 6))]
-    driven_finish(sc, steps, rng=r)
+    if r.random() < 0.5:
+        # ... and the context loops again afterwards: whatever the first run left in the poll set is still there
+        driven_multi(sc, [steps, [[("sleep", 1500)], [], [("sleep", 1500)], []]], [[], []], rng=r)
+    else:
+        driven_finish(sc, steps, rng=r)
     finalize_main(sc)
     return sc
 
@@ -1437,7 +1501,8 @@ def gen_registry(seed, mode="loop"):
     # periods that the library's own timers (batch timeout, token bucket refill at 1 / 2 / 10 per second) can have too
     tmr_pool += r.sample([10 ** 9, 5 * 10 ** 8, 10 ** 8], r.randrange(0, 3))
     sgn_pool = r.sample([10, 12, 34, 35, 36, 37], r.randrange(2, 5))
-    thr_pool = r.sample([(1, 0), (2, 0), (1, 1000), (0, 1000), (3, 0), (2, 1000), (1, 2000), (0, 3000), (5, 500), (4, 1500)], r.randrange(2, 7))
+    thr_pool = r.sample([(1, 0), (2, 0), (1, 1000), (0, 1000), (3, 0), (2, 1000), (1, 2000), (0, 3000), (5, 500), (4, 1500),
+                         (1, 1250), (1, 1750), (0, 250), (0, 750), (5, 900), (4, 1900)], r.randrange(2, 9))      # (inactive ms, activity frequency in 1/1000)
     top_pool = [sc.topic(t) for t in r.sample(["alpha", "beta", "gamma", "ab1", "ab2", "^ab.*", "g.mma"], r.randrange(2, 6))]
 
     def one(m):
